@@ -1022,11 +1022,33 @@ func vCompareC01(src, srcAfter, dst map[string]*vObsC01, withAtime, rootMeta boo
 	for _, s := range gAll {
 		inG[s] = true
 	}
+	members := func(m map[string]*vObsC01) map[string][]string {
+		byIno := map[[2]uint64][]string{}
+		for p, o := range m {
+			if o.Type != 'd' && o.Type != 's' {
+				byIno[[2]uint64{o.Dev, o.Ino}] = append(byIno[[2]uint64{o.Dev, o.Ino}], p)
+			}
+		}
+		out := map[string][]string{}
+		for _, g := range byIno {
+			sort.Strings(g)
+			out[fmt.Sprintf("%q", g)] = g
+		}
+		return out
+	}
+	srcGroups := members(src)
 	for _, s := range sAll {
 		if !inG[s] {
+			// known shape, narrowly: a group of non-regular entries (one inode, hence one type) whose
+			// names all come back as independent inodes (link count 1) of that type
 			known := ""
 			if isNon[s] {
 				known = vKnownHardlinkNonRegularC01
+				for _, p := range srcGroups[s] {
+					if g := dst[p]; g == nil || g.Type != src[p].Type || g.Nlink != 1 {
+						known = ""
+					}
+				}
 			}
 			d.add(known, "hard-link group of the source is not a group of the restored tree: %s", s)
 		}
@@ -1080,148 +1102,199 @@ func TestVerifC01RoundTrip(t *testing.T) {
 		cfg := vGenCfgC01(t)
 		sp, classes := vGenSpecC01(t, caps)
 		sp.Cfg = cfg
-
-		e, err := vNewEnv(cfg.Vmem)
-		if err != nil {
-			t.Fatal(err)
-		}
-		defer e.Close()
-		e.gopts.Compression = vCompressionC01(cfg.Compression)
-		e.gopts.PackSize = cfg.PackSize
-		if cfg.Vmem {
-			e.store.Conns = cfg.Conns
-		} else {
-			e.gopts.Extended["local.connections"] = fmt.Sprint(cfg.Conns)
-		}
-		if err := e.Init(cfg.Version); err != nil {
-			t.Fatalf("init: %v", err)
-		}
-		src := e.Scratch("src-")
-		if err := sp.Materialize(src, st); err != nil {
-			t.Fatalf("harness: materialize: %v", err)
-		}
-		before, err := vScanC01(src, true)
-		if err != nil {
-			t.Fatalf("harness: scan source: %v", err)
-		}
-
-		out, err := e.BackupOut(context.Background(), e.gopts, []string{src}, BackupOptions{ReadConcurrency: cfg.ReadConc, WithAtime: cfg.WithAtime})
-		if err != nil {
-			t.Fatalf("backup failed: %v\n%s%s\nspec %s", err, out.Stdout, out.Stderr, vJSON(sp))
-		}
-		after, err := vScanC01(src, false)
-		if err != nil {
-			t.Fatalf("harness: rescan source: %v", err)
-		}
-		ids, err := e.SnapshotIDs()
-		if err != nil || len(ids) != 1 {
-			t.Fatalf("expected one snapshot, got %v (%v)", ids, err)
-		}
-
-		target := e.Scratch("restore-")
-		snap, restoredRoot := ids[0], target+src
-		if cfg.Subfolder {
-			snap, restoredRoot = ids[0]+":"+src, target
-		}
-		ropts := RestoreOptions{Sparse: cfg.Sparse, Verify: cfg.Verify}
-		if err := e.Restore(snap, target, ropts); err != nil {
-			t.Fatalf("restore failed: %v\nspec %s", err, vJSON(sp))
-		}
-		got, err := vScanC01(restoredRoot, true)
-		if err != nil {
-			t.Fatalf("harness: scan restored tree: %v", err)
-		}
-
-		// classes, measured on what is really on disk
-		var nonUTF8, special, sockets, xattrs, multichunk, zerorun, symlinks, dirs, files, oddTime, sbits, owned int
-		for p, o := range before {
-			if !utf8.ValidString(p) {
-				nonUTF8++
-			}
-			switch o.Type {
-			case 'p', 'c', 'b':
-				special++
-			case 's':
-				sockets++
-			case 'l':
-				symlinks++
-			case 'd':
-				dirs++
-			case 'f':
-				files++
-				if o.Size > vMinChunkC01 {
-					multichunk++
-				}
-			}
-			if len(o.X) > 0 {
-				xattrs++
-			}
-			if o.Msec < 0 || o.Msec > 1<<31 {
-				oddTime++
-			}
-			if o.Mode&0o7000 != 0 {
-				sbits++
-			}
-			if o.UID != 0 || o.GID != 0 {
-				owned++
-			}
-		}
-		for i := range sp.Ents {
-			for _, s := range sp.Ents[i].Segs {
-				if s.K == 'z' && s.N >= vMinChunkC01 {
-					zerorun++
-					break
-				}
-			}
-		}
-		groups, groupsNon := vPartitionC01(before, true)
-		b2c := func(label string, n int) string {
-			if n > 0 {
-				return label + "=yes"
-			}
-			return label + "=no"
-		}
-		classes = append(classes, b2c("nonutf8-name", nonUTF8), b2c("special-file", special), b2c("socket", sockets), b2c("xattr", xattrs),
-			b2c("multichunk-file", multichunk), b2c("zero-run>=512K", zerorun), b2c("hardlink-group", len(groups)), b2c("hardlink-group-nonregular", len(groupsNon)),
-			b2c("symlink", symlinks), b2c("odd-mtime", oddTime), b2c("special-mode-bits", sbits), b2c("owner!=root", owned),
-			"repo=v"+cfg.Version, "compression="+cfg.Compression, fmt.Sprintf("packsize=%d", cfg.PackSize), fmt.Sprintf("readconc=%d", cfg.ReadConc),
-			fmt.Sprintf("vmem=%v", cfg.Vmem), fmt.Sprintf("with-atime=%v", cfg.WithAtime), fmt.Sprintf("restore-sparse=%v", cfg.Sparse),
-			fmt.Sprintf("restore-verify=%v", cfg.Verify), fmt.Sprintf("restore-subfolder=%v", cfg.Subfolder))
-		key := ""
-		if nonUTF8+special+xattrs+multichunk+zerorun+len(groups) > 0 {
-			h := sha256.Sum256([]byte(vJSON(sp) + fmt.Sprint(len(before))))
-			var names []string
-			for p := range before {
-				names = append(names, p)
-			}
-			sort.Strings(names)
-			key = hex.EncodeToString(h[:]) + strings.Join(names, "\x00")
-		}
-		st.Case(key, classes...)
-		st.Evals(len(before))
-		if st.WantSample() {
-			var names []string
-			for p, o := range before {
-				names = append(names, fmt.Sprintf("%c %q", o.Type, p))
-			}
-			sort.Strings(names)
-			st.Sample(map[string]any{"config": cfg, "entries": names, "hardlink_groups": groups})
-		}
-
-		d := vCompareC01(before, after, got, cfg.WithAtime && !cfg.Verify, !cfg.Subfolder)
-		// differences that have exactly the shape of a listed known finding are counted, not failed
-		var rest []vDiffItemC01
-		for _, it := range d.items {
-			if it.known != "" && st.Known(it.known) {
-				continue
-			}
-			rest = append(rest, it)
-		}
-		d.items = rest
-		if len(d.items) > 0 {
-			t.Fatalf("restored tree differs from the source (restored != source):\n  %s\nconfig %s\nspec %s", d, vJSON(cfg), vJSON(sp))
-		}
+		vRunC01(t, st, sp, classes)
 	})
 }
 
+// vFatalC01 is the part of *rapid.T / *testing.T the round trip needs.
+type vFatalC01 interface {
+	Fatalf(format string, args ...any)
+}
+
+// vRunC01 materialises sp, runs backup and restore with sp.Cfg and applies the oracle.
+func vRunC01(t vFatalC01, st *verifkit.Stats, sp *vSpecC01, classes []string) {
+	cfg := sp.Cfg
+	e, err := vNewEnv(cfg.Vmem)
+	if err != nil {
+		t.Fatalf("harness: %v", err)
+	}
+	defer e.Close()
+	e.gopts.Compression = vCompressionC01(cfg.Compression)
+	e.gopts.PackSize = cfg.PackSize
+	if cfg.Vmem {
+		e.store.Conns = cfg.Conns
+	} else {
+		e.gopts.Extended["local.connections"] = fmt.Sprint(cfg.Conns)
+	}
+	if err := e.Init(cfg.Version); err != nil {
+		t.Fatalf("init: %v", err)
+	}
+	src := e.Scratch("src-")
+	if err := sp.Materialize(src, st); err != nil {
+		t.Fatalf("harness: materialize: %v", err)
+	}
+	before, err := vScanC01(src, true)
+	if err != nil {
+		t.Fatalf("harness: scan source: %v", err)
+	}
+
+	out, err := e.BackupOut(context.Background(), e.gopts, []string{src}, BackupOptions{ReadConcurrency: cfg.ReadConc, WithAtime: cfg.WithAtime})
+	if err != nil {
+		t.Fatalf("backup failed: %v\n%s%s\nspec %s", err, out.Stdout, out.Stderr, vJSON(sp))
+	}
+	after, err := vScanC01(src, false)
+	if err != nil {
+		t.Fatalf("harness: rescan source: %v", err)
+	}
+	ids, err := e.SnapshotIDs()
+	if err != nil || len(ids) != 1 {
+		t.Fatalf("expected one snapshot, got %v (%v)", ids, err)
+	}
+
+	target := e.Scratch("restore-")
+	snap, restoredRoot := ids[0], target+src
+	if cfg.Subfolder {
+		snap, restoredRoot = ids[0]+":"+src, target
+	}
+	ropts := RestoreOptions{Sparse: cfg.Sparse, Verify: cfg.Verify}
+	if err := e.Restore(snap, target, ropts); err != nil {
+		t.Fatalf("restore failed: %v\nspec %s", err, vJSON(sp))
+	}
+	got, err := vScanC01(restoredRoot, true)
+	if err != nil {
+		t.Fatalf("harness: scan restored tree: %v", err)
+	}
+
+	// classes, measured on what is really on disk
+	var nonUTF8, special, sockets, xattrs, multichunk, zerorun, symlinks, dirs, files, oddTime, sbits, owned int
+	for p, o := range before {
+		if !utf8.ValidString(p) {
+			nonUTF8++
+		}
+		switch o.Type {
+		case 'p', 'c', 'b':
+			special++
+		case 's':
+			sockets++
+		case 'l':
+			symlinks++
+		case 'd':
+			dirs++
+		case 'f':
+			files++
+			if o.Size > vMinChunkC01 {
+				multichunk++
+			}
+		}
+		if len(o.X) > 0 {
+			xattrs++
+		}
+		if o.Msec < 0 || o.Msec > 1<<31 {
+			oddTime++
+		}
+		if o.Mode&0o7000 != 0 {
+			sbits++
+		}
+		if o.UID != 0 || o.GID != 0 {
+			owned++
+		}
+	}
+	for i := range sp.Ents {
+		for _, s := range sp.Ents[i].Segs {
+			if s.K == 'z' && s.N >= vMinChunkC01 {
+				zerorun++
+				break
+			}
+		}
+	}
+	groups, groupsNon := vPartitionC01(before, true)
+	b2c := func(label string, n int) string {
+		if n > 0 {
+			return label + "=yes"
+		}
+		return label + "=no"
+	}
+	classes = append(classes, b2c("nonutf8-name", nonUTF8), b2c("special-file", special), b2c("socket", sockets), b2c("xattr", xattrs),
+		b2c("multichunk-file", multichunk), b2c("zero-run>=512K", zerorun), b2c("hardlink-group", len(groups)), b2c("hardlink-group-nonregular", len(groupsNon)),
+		b2c("symlink", symlinks), b2c("odd-mtime", oddTime), b2c("special-mode-bits", sbits), b2c("owner!=root", owned),
+		"repo=v"+cfg.Version, "compression="+cfg.Compression, fmt.Sprintf("packsize=%d", cfg.PackSize), fmt.Sprintf("readconc=%d", cfg.ReadConc),
+		fmt.Sprintf("vmem=%v", cfg.Vmem), fmt.Sprintf("with-atime=%v", cfg.WithAtime), fmt.Sprintf("restore-sparse=%v", cfg.Sparse),
+		fmt.Sprintf("restore-verify=%v", cfg.Verify), fmt.Sprintf("restore-subfolder=%v", cfg.Subfolder))
+	key := ""
+	if nonUTF8+special+xattrs+multichunk+zerorun+len(groups) > 0 {
+		h := sha256.Sum256([]byte(vJSON(sp) + fmt.Sprint(len(before))))
+		var names []string
+		for p := range before {
+			names = append(names, p)
+		}
+		sort.Strings(names)
+		key = hex.EncodeToString(h[:]) + strings.Join(names, "\x00")
+	}
+	st.Case(key, classes...)
+	st.Evals(len(before))
+	if st.WantSample() {
+		var names []string
+		for p, o := range before {
+			names = append(names, fmt.Sprintf("%c %q", o.Type, p))
+		}
+		sort.Strings(names)
+		st.Sample(map[string]any{"config": cfg, "entries": names, "hardlink_groups": groups})
+	}
+
+	d := vCompareC01(before, after, got, cfg.WithAtime && !cfg.Verify, !cfg.Subfolder)
+	// differences that have exactly the shape of a listed known finding are counted, not failed
+	var rest []vDiffItemC01
+	for _, it := range d.items {
+		if it.known != "" && st.Known(it.known) {
+			continue
+		}
+		rest = append(rest, it)
+	}
+	d.items = rest
+	if len(d.items) > 0 {
+		t.Fatalf("restored tree differs from the source (restored != source):\n  %s\nconfig %s\nspec %s", d, vJSON(cfg), vJSON(sp))
+	}
+}
+
 var _ = global.Options{}
+
+// TestVerifC01KnownShapes runs one small fixed tree per known finding, so that the
+// KNOWN-FINDING lines do not depend on the seed, plus neighbours of the shapes that
+// must round-trip (valid UTF-8 xattr names, hard links between regular files).
+func TestVerifC01KnownShapes(t *testing.T) {
+	vSetup(t)
+	st := verifkit.Begin(t, "C01")
+	caps := vProbeCapsC01()
+	meta := func(e vEntC01) vEntC01 {
+		e.Mode, e.Msec, e.Mnsec, e.Asec, e.Ansec = 0o640, 1500000000, 123456789, 1500000100, 1
+		e.QName = fmt.Sprintf("%q", e.Name)
+		e.path = e.Name
+		e.Parent = -1
+		return e
+	}
+	cfg := vCfgC01{Vmem: true, Version: "2", Compression: "auto", Conns: 2}
+	root := meta(vEntC01{Kind: 'd'})
+	root.Mode = 0o755
+	if caps.UserX && caps.NonUTF8 {
+		sp := &vSpecC01{Root: root, Cfg: cfg, Ents: []vEntC01{
+			meta(vEntC01{Name: "f", Kind: 'f', Segs: []vSegC01{{K: 't', N: 100, Seed: 1}},
+				Xattrs: []vXattrC01{{"user.\xff", []byte("x")}, {"user.valid-\u00fc", []byte("y")}, {"user.lat\xe9n\xfe", []byte{}}}}),
+		}}
+		vRunC01(t, st, sp, []string{"probe=xattr-name-invalid-utf8"})
+	}
+	if caps.LinkSymlink && caps.LinkSpecial && caps.Mknod {
+		dev := meta(vEntC01{Name: "cdev", Kind: 'c', Rdev: unix.Mkdev(1, 3)})
+		sp := &vSpecC01{Root: root, Cfg: cfg, Ents: []vEntC01{
+			meta(vEntC01{Name: "s", Kind: 'l', Target: "f"}),
+			meta(vEntC01{Name: "s2", Kind: 'H', LinkTo: 0}),
+			meta(vEntC01{Name: "fifo", Kind: 'p'}),
+			meta(vEntC01{Name: "fifo2", Kind: 'H', LinkTo: 2}),
+			meta(vEntC01{Name: "fifo3", Kind: 'H', LinkTo: 2}),
+			dev,
+			meta(vEntC01{Name: "cdev2", Kind: 'H', LinkTo: 5}),
+			meta(vEntC01{Name: "f", Kind: 'f', Segs: []vSegC01{{K: 'r', N: 10, Seed: 2}}}),
+			meta(vEntC01{Name: "f2", Kind: 'h', LinkTo: 7}),
+		}}
+		vRunC01(t, st, sp, []string{"probe=hardlinked-nonregular"})
+	}
+}
